@@ -190,6 +190,7 @@ func (vc *VC) next(x *ssa.Next, st *State, reach string) SV {
 
 func (vc *VC) chanSend(x *ssa.Send, st *State, reach string) {
 	vc.effect("send", x.Chan, st, reach, x.Pos())
+	vc.typedEffect("send", x.Chan, vc.val(x.X), st, reach, x.Pos()) // effects.go
 }
 
 func (vc *VC) chanRecv(x *ssa.UnOp, st *State, reach string) SV {
@@ -197,6 +198,7 @@ func (vc *VC) chanRecv(x *ssa.UnOp, st *State, reach string) SV {
 	elem := x.X.Type().Underlying().(*types.Chan).Elem()
 	v := vc.freshSV("recv", elem)
 	vc.assumeType(reach, elem, v, st)
+	vc.typedEffect("recv", x.X, v, st, reach, x.Pos()) // effects.go
 	if x.CommaOk {
 		return St{Typ: x.Type(), F: []SV{v, Sc{"Bool", vc.fresh("recvok", "Bool")}}}
 	}
@@ -216,17 +218,25 @@ func (vc *VC) selectInstr(x *ssa.Select, st *State, reach string) SV {
 	}
 	vc.assume("true", sAnd(app("<=", lo, idx), app("<", idx, sInt(int64(len(x.States))))))
 	fs := []SV{Sc{"Int", idx}, Sc{"Bool", vc.fresh("recvok", "Bool")}}
+	vc.set(st, "G|sel", "Int", idx) // effects.go: `$sel`
 	for i, s := range x.States {
-		g := sAnd(reach, sEq(idx, sInt(int64(i))))
-		if s.Dir == types.RecvOnly {
-			vc.effect("recv", s.Chan, st, g, s.Pos)
-			elem := s.Chan.Type().Underlying().(*types.Chan).Elem()
-			v := vc.freshSV("recv", elem)
-			vc.assumeType(g, elem, v, st)
-			fs = append(fs, v)
-		} else {
-			vc.effect("send", s.Chan, st, g, s.Pos)
-		}
+		arm := sEq(idx, sInt(int64(i)))
+		g := sAnd(reach, arm)
+		s := s
+		// effects.go: ghost-state changes of an arm's effect contract apply only if that arm is taken
+		vc.guardedState(st, arm, func() {
+			if s.Dir == types.RecvOnly {
+				vc.effect("recv", s.Chan, st, g, s.Pos)
+				elem := s.Chan.Type().Underlying().(*types.Chan).Elem()
+				v := vc.freshSV("recv", elem)
+				vc.assumeType(g, elem, v, st)
+				vc.typedEffect("recv", s.Chan, v, st, g, s.Pos)
+				fs = append(fs, v)
+			} else {
+				vc.effect("send", s.Chan, st, g, s.Pos)
+				vc.typedEffect("send", s.Chan, vc.val(s.Send), st, g, s.Pos)
+			}
+		})
 	}
 	return St{Typ: x.Type(), F: fs}
 }
